@@ -7,6 +7,7 @@ import (
 	"fmt"
 	"os"
 	"runtime"
+	"runtime/debug"
 	"sort"
 	"strconv"
 	"strings"
@@ -62,14 +63,17 @@ func (s *Sink) Violate(op, out, what string) {
 
 func (s *Sink) Scenario(sc *Scenario) *RunResult {
 	res := RunScenario(sc)
+	// findings in a run during which a retry saw the line idle for no reason the scenario gives: a stalled machine does not
+	// stall three times at the same place, code that sleeps between its attempts does
+	for again := 0; again < 2 && res.Stalled > 0 && len(res.Violations) > 0; again++ {
+		s.Extra["scenarios_repeated_after_a_possible_stall"]++
+		res = RunScenario(sc)
+	}
 	s.Line(sc.Tag, res.Op, res.Out)
 	for _, v := range res.Violations {
 		s.Violate(res.Op, res.Out, v)
 	}
 	s.Extra["retained_slices_rechecked"] += res.RetainedChecked
-	if res.Stalled > 0 {
-		s.Extra["calls_stalled_expectation_skipped"] += res.Stalled
-	}
 	return res
 }
 
@@ -333,15 +337,28 @@ func main() {
 	s := &Sink{w: bufio.NewWriterSize(f, 1<<20), Tags: map[string]int{}, Extra: map[string]int{}, Violations: []Violation{}}
 	rng := NewRng(seed)
 	thorough := tier == "thorough"
-	switch {
-	case suite == "c01", suite == "c02", suite == "c03", suite == "c04", suite == "c05", suite == "c06", suite == "c18", suite == "c03x":
-		runProtoSuite(suite, rng, thorough, s)
-	default:
-		if !runOtherSuite(suite, rng, thorough, s) {
-			fmt.Fprintln(os.Stderr, "unknown suite", suite)
-			os.Exit(2)
+	func() {
+		// every call into the library is guarded where it is made; should one slip through (a helper of the harness that
+		// calls the library directly), the panic is still reported as a finding of this suite rather than as a crashed harness
+		defer func() {
+			if r := recover(); r != nil {
+				st := string(debug.Stack())
+				if i := strings.Index(st, "panic("); i >= 0 {
+					st = st[i:]
+				}
+				s.Violate("suite "+suite, "PANIC", fmt.Sprintf("the library panicked in a call made by suite %s: %v; stack: %s", suite, r, st[:min(len(st), 1500)]))
+			}
+		}()
+		switch {
+		case suite == "c01", suite == "c02", suite == "c03", suite == "c04", suite == "c05", suite == "c06", suite == "c18", suite == "c03x":
+			runProtoSuite(suite, rng, thorough, s)
+		default:
+			if !runOtherSuite(suite, rng, thorough, s) {
+				fmt.Fprintln(os.Stderr, "unknown suite", suite)
+				os.Exit(2)
+			}
 		}
-	}
+	}()
 	s.w.Flush()
 	f.Close()
 	tags := make([]string, 0, len(s.Tags))
